@@ -55,6 +55,10 @@ type Sequence struct {
 
 var heightClasses = []uint64{0, 1, 2, 3, 4, 5, 6, 7, 8, 9, 10, 11, 12, 99, 100, 101, 1000, 1 << 32, 1<<63 - 1, 1 << 63, math.MaxUint64 - 1, math.MaxUint64}
 
+// hostileHeights: each is the lower of a pair (t, t+1) worth storing side by side.
+var hostileHeights = []uint64{0x2d, 0x2e, 0x2f, 0x2e2d, 0x2e2e, 0x2e2f, 0x2f2d, 0x2f2e, 0x2f2f, 0x12f2e, 0x22f2e, 0x2e2e2e2e, 0x2f2f2f2e, 0x2f2e2f2e,
+	0x2f << 56, 0x2e<<56 | 0x2f<<48, 0x2f<<8 | 0xff, 0x09, 0x5b, 0xff, 0xffff, 0x2f2e << 32, 0x2f00, 0x2e00}
+
 // metaKeys returns the metadata keys the node uses, instantiated over the heights of the sequence.
 func metaKeys(heights []uint64) []string {
 	keys := []string{"d", "l", "last-submitted-header-height", "last-submitted-data-height"}
@@ -75,6 +79,12 @@ func genSequence(rng *rand.Rand, id int, badger bool) Sequence {
 	var heights []uint64
 	base := []uint64{1, 1, 1, 0, 5, 100, 1 << 32}[rng.Intn(7)]
 	nh := 4 + rng.Intn(8)
+	if rng.Intn(4) == 0 {
+		// neighbouring heights whose fixed-width or textual encodings contain bytes that mean something to a key
+		// syntax ('/' 0x2f, '.' 0x2e, 0x00, '\n', '\\'): a key built from such a height must still be its own key
+		t := hostileHeights[rng.Intn(len(hostileHeights))]
+		base = t - uint64(rng.Intn(3))
+	}
 	for i := 0; i < nh; i++ {
 		heights = append(heights, base+uint64(i))
 	}
